@@ -39,6 +39,11 @@ structure Loop where
   notes : Option (List Note) := none
   layerC : Nat := 0
   layerCSteps : Nat := 0
+  /-- the bucket trees of the file as last decoded; `viewFresh` while no commit has happened since -/
+  lastView : Option BucketView := none
+  viewFresh : Bool := false
+  overlays : Nat := 0
+  reenc : Nat := 0
   /-- a fault was armed for the next commit (C11) -/
   faultArmed : Bool := false
   /-- after a commit that returned an I/O error: the state before it (the model holds the state after it) -/
@@ -53,7 +58,7 @@ def Loop.endHist (l : Loop) : IO Unit := do
     match l.proto with
     | some p => IO.println s!"PROTO {l.cur} commits-checked={p.checked} maxNonFree={p.maxNonFree} maxGrowth={p.maxReq} numPages={p.sys.numPages} invariant=ok"
     | none => pure ()
-    if l.layerC > 0 then IO.println s!"STAT layerc_buckets_compared={l.layerC} layerc_rebalance_steps_replayed={l.layerCSteps}"
+    if l.layerC > 0 || l.overlays > 0 || l.reenc > 0 then IO.println s!"STAT layerc_buckets_compared={l.layerC} layerc_rebalance_steps_replayed={l.layerCSteps} overlay_trees_predicted={l.overlays} pages_reencoded={l.reenc}"
     if !l.failed || l.refused then IO.println s!"RESULT {l.cur} OK ops={l.nOps}"
 
 /-- one transcript line -/
@@ -73,7 +78,7 @@ def stepLine (l : Loop) (line : String) : IO Loop := do
   if op == "hist" then
     l.endHist
     return { l with st := {}, cur := f.getD 1 "?", nOps := 0, failed := false, nHist := l.nHist + 1,
-                    proto := none, lastFile := none, commitsSinceFile := 0, protoOff := false, refused := false, pretrees := [], notes := none, layerC := 0, layerCSteps := 0 }
+                    proto := none, lastFile := none, commitsSinceFile := 0, protoOff := false, refused := false, pretrees := [], notes := none, layerC := 0, layerCSteps := 0, lastView := none, viewFresh := false, overlays := 0, reenc := 0 }
   if l.failed then return l
   let r := stepOp l.st f
   let l := { l with cnt := bump l.cnt (op ++ "/" ++ outcomeClass got) }
@@ -109,13 +114,35 @@ def stepLine (l : Loop) (line : String) : IO Loop := do
   let l := { l with st := r.st, nOps := l.nOps + 1 }
   match op with
   | "fhash" => return { l with st := { l.st with lastHash := some got } }
-  | "pretrees" => return { l with pretrees := parsePretrees got, notes := none }
+  | "pretrees" =>
+    let pts := parsePretrees got
+    let mut l := { l with pretrees := pts, notes := none }
+    -- Layer T tie: the model's leaf edits on the committed tree must give the overlay the real
+    -- transaction has built (shape and entries, page ids forgotten)
+    match l.viewFresh, l.lastView, l.st.tx? (f.getD 1 "0").toNat! with
+    | true, some root, some tx =>
+      for (path, _, pre) in pts do
+        let names := if path == "-" then [] else (path.splitOn "/").map unhex
+        let t0? : Option CTree :=
+          if nodePage pre.pid == 0 then some (.leaf 0 [])      -- created in this transaction
+          else (findView root names).map (fun v => toEntT v.tree)
+        match t0?, Spec.getBucket tx.db names with
+        | some t0, some _ =>
+          let pred := fmtShape (predictOverlay t0 (Spec.scan tx.db names))
+          let real := fmtShape pre
+          if pred != real then
+            return ← l.fail "OVERLAYDIFF" s!"op=[{lhs}] bucket=[{path}] model=[{pred}] real=[{real}]"
+          l := { l with overlays := l.overlays + 1 }
+        | _, _ => pure ()
+    | _, _, _ => pure ()
+    return l
   | "notes" => return { l with notes := some (parseNotes got) }
   | "fault" => return { l with faultArmed := got == "ok" }
   | "limit" => return { l with faultArmed := (f.getD 1 "inf") != "inf" }
   | "commit" =>
-    if got == "ok" then return { l with commitsSinceFile := l.commitsSinceFile + 1 } else return l
+    if got == "ok" then return { l with commitsSinceFile := l.commitsSinceFile + 1, viewFresh := false } else return { l with viewFresh := false }
   | "open" | "reopen" | "close" => return { l with proto := none, lastFile := none, commitsSinceFile := 0 }
+  | "usefile" => return { l with viewFresh := false }
   | "begin" =>
     if f.getD 2 "" == "r" && got == "ok" then
       match l.proto with
@@ -146,12 +173,7 @@ def stepLine (l : Loop) (line : String) : IO Loop := do
     | some notes, some root =>
       for (path, dirty, pre) in l.pretrees do
         let names := if path == "-" then [] else (path.splitOn "/").map unhex
-        let rec find (v : BucketView) : List Bytes → Option BucketView
-          | [] => some v
-          | n :: rest => match v.subs.find? (fun s => s.1 == n) with
-            | some s => find s.2 rest
-            | none => none
-        match find root names with
+        match findView root names with
         | none => pure ()   -- deleted in this transaction
         | some v =>
           -- the Layer C invariants are evaluated on what the real code had before and wrote after
@@ -174,7 +196,8 @@ def stepLine (l : Loop) (line : String) : IO Loop := do
     | _, _ => pure ()
     IO.println s!"FILE {l.cur} line={l.lineNo} numPages={rep.numPages} txId={rep.txId} free={rep.free} reach={rep.reach} size={rep.fileSize}"
     return { l with cnt := bump l.cnt "file/ok",
-                    lastFile := some { reach := rep.reachPages, persisted := rep.freePages, numPages := rep.numPages, txId := rep.txId } }
+                    lastFile := some { reach := rep.reachPages, persisted := rep.freePages, numPages := rep.numPages, txId := rep.txId },
+                    lastView := rep.view, viewFresh := rep.view.isSome, reenc := l.reenc + rep.pagesReencoded }
   | "flstate" =>
     match l.lastFile with
     | none => return l
